@@ -73,12 +73,12 @@ theorem targets_set_ne (h : Heap) (o : Nat) (x : Obj) (n : Nat) (a : Attr) {p : 
   cases a <;> simp [targets, Heap.setObj, Heap.bump, hp]
 
 /-- Building a `Change` from an update of one attribute of one object. -/
-theorem Change.ofSet {h : Heap} (ht : TreeShaped h) {o : Nat} (ho : o < h.next) (x : Obj) (n : Nat)
+theorem Change.ofSet' {h : Heap} (ht : TreeShaped h) {o : Nat} (ho : o < h.next) (x : Obj) (n : Nat)
     (a : Attr) (olds news : List Nat)
     (hother : ∀ a', a' ≠ a → x.targets a' = (h.obj o).targets a')
     (hmem : ∀ c, c ∈ x.targets a ↔ (c ∈ (h.obj o).targets a ∧ c ∉ olds) ∨ c ∈ news)
     (holds : ∀ c ∈ olds, c ∈ (h.obj o).targets a)
-    (hnews : ∀ c ∈ news, h.next ≤ c ∧ c < h.next + n)
+    (hnews : ∀ c ∈ news, (h.next ≤ c ∧ c < h.next + n) ∨ c ∈ olds)
     (hnd : (x.targets a).Nodup) (hond : olds.Nodup) (hnnd : news.Nodup)
     (hkeys : (x.byname.map (·.1)).Nodup) :
     Change h ((h.setObj o x).bump n) o a olds news := by
@@ -96,6 +96,18 @@ theorem Change.ofSet {h : Heap} (ht : TreeShaped h) {o : Nat} (ho : o < h.next) 
     by_cases hp : p = o
     · subst hp; simpa [Heap.setObj, Heap.bump] using hkeys
     · simpa [Heap.setObj, Heap.bump, hp] using ht.keys p
+
+/-- … when every gained object is fresh. -/
+theorem Change.ofSet {h : Heap} (ht : TreeShaped h) {o : Nat} (ho : o < h.next) (x : Obj) (n : Nat)
+    (a : Attr) (olds news : List Nat)
+    (hother : ∀ a', a' ≠ a → x.targets a' = (h.obj o).targets a')
+    (hmem : ∀ c, c ∈ x.targets a ↔ (c ∈ (h.obj o).targets a ∧ c ∉ olds) ∨ c ∈ news)
+    (holds : ∀ c ∈ olds, c ∈ (h.obj o).targets a)
+    (hnews : ∀ c ∈ news, h.next ≤ c ∧ c < h.next + n)
+    (hnd : (x.targets a).Nodup) (hond : olds.Nodup) (hnnd : news.Nodup)
+    (hkeys : (x.byname.map (·.1)).Nodup) :
+    Change h ((h.setObj o x).bump n) o a olds news :=
+  Change.ofSet' ht ho x n a olds news hother hmem holds (fun c hc => Or.inl (hnews c hc)) hnd hond hnnd hkeys
 
 /-! ### association lists -/
 
@@ -485,7 +497,40 @@ inductive MutKind (h : Heap) (m : Mut) : Prop
       (hs : m.script = []) (hf : m.fires = true)
   | change (a : Attr) (htr : m.trait = .link a ∨ (m.trait = .items a ∧ isContainer a = true))
       (hc : Change h m.h' m.o a (scUnregs m.script) (scRegs m.script))
-      (hquiet : m.fires = false → scUnregs m.script = [] ∧ scRegs m.script = [])
+      -- no notification ⇒ nothing the name can see has changed
+      (hquiet : m.fires = false → ∀ p a' c, c ∈ targets m.h' a' p ↔ c ∈ targets h a' p)
+      -- the handler either registers fresh objects only, or unregisters everything removed
+      -- before it registers anything
+      (hshape : (∀ c ∈ scRegs m.script, h.next ≤ c) ∨
+        m.script = unregAll (scUnregs m.script) ++ regAll (scRegs m.script))
+
+theorem MutKind.mk_change {h : Heap} {m : Mut} (ht : TreeShaped h) (a : Attr)
+    (htr : m.trait = .link a ∨ (m.trait = .items a ∧ isContainer a = true))
+    (hc : Change h m.h' m.o a (scUnregs m.script) (scRegs m.script))
+    (hquiet : m.fires = false → scUnregs m.script = [] ∧ scRegs m.script = [])
+    (hshape : (∀ c ∈ scRegs m.script, h.next ≤ c) ∨
+        m.script = unregAll (scUnregs m.script) ++ regAll (scRegs m.script)) : MutKind h m := by
+  refine .change a htr hc ?_ hshape
+  intro hf p a' c
+  obtain ⟨e1, e2⟩ := hquiet hf
+  have hc' := hc
+  rw [e1, e2] at hc'
+  rw [hc'.mem_targets ht]; simp
+
+theorem mem_permute {p : Nat} {l : List Nat} {c : Nat} : c ∈ permute p l ↔ c ∈ l := by
+  unfold permute
+  split
+  · rfl
+  · simp
+  · conv => rhs; rw [← take_append_drop 1 l]
+    simp only [mem_append]; exact Or.comm
+
+theorem nodup_permute {p : Nat} {l : List Nat} (hl : l.Nodup) : (permute p l).Nodup := by
+  unfold permute
+  split
+  · exact hl
+  · exact (reverse_perm l).nodup_iff.mpr hl
+  · rw [perm_append_comm.nodup_iff, take_append_drop]; exact hl
 
 theorem isEmpty_and_false {α β} {l₁ : List α} {l₂ : List β}
     (hf : (!(l₁.isEmpty && l₂.isEmpty)) = false) : l₁ = [] ∧ l₂ = [] := by
@@ -499,7 +544,7 @@ theorem mutate_spec {h : Heap} (ht : TreeShaped h) {op : Op} {m : Mut}
     split at hm
     · rename_i ho
       cases hm
-      refine .change .child (Or.inl rfl) ?_ ?_
+      refine MutKind.mk_change ht .child (Or.inl rfl) ?_ ?_ (Or.inr (by simp))
       · simp only [scUnregs_append, scUnregs_unregAll, scUnregs_regAll, append_nil, scRegs_append,
           scRegs_unregAll, scRegs_regAll, nil_append]
         rw [targets_eq]
@@ -516,7 +561,7 @@ theorem mutate_spec {h : Heap} (ht : TreeShaped h) {op : Op} {m : Mut}
     split at hm
     · rename_i ho
       cases hm
-      refine .change .kids (Or.inl rfl) ?_ ?_
+      refine MutKind.mk_change ht .kids (Or.inl rfl) ?_ ?_ (Or.inr (by simp))
       · simp only [scUnregs_append, scUnregs_unregAll, scUnregs_regAll, append_nil, scRegs_append,
           scRegs_unregAll, scRegs_regAll, nil_append]
         rw [targets_eq]
@@ -539,7 +584,7 @@ theorem mutate_spec {h : Heap} (ht : TreeShaped h) {op : Op} {m : Mut}
         have := (mem_freshIds.mp hc).1
         omega
       obtain ⟨f1, f2, f3, f4⟩ := splice_facts hkn hij (freshIds_nodup h n) hdisj
-      refine .change .kids (Or.inr ⟨rfl, rfl⟩) ?_ ?_
+      refine MutKind.mk_change ht .kids (Or.inr ⟨rfl, rfl⟩) ?_ ?_ (Or.inr (by simp))
       · simp only [scUnregs_append, scUnregs_unregAll, scUnregs_regAll, append_nil, scRegs_append,
           scRegs_unregAll, scRegs_regAll, nil_append]
         refine Change.ofSet ht ho _ n .kids _ _ ?_ f1 f2 (fun c hc => mem_freshIds.mp hc) f3 f4
@@ -555,7 +600,7 @@ theorem mutate_spec {h : Heap} (ht : TreeShaped h) {op : Op} {m : Mut}
       cases hm
       have hlen : (dedupKeys keys).length = (freshIds h (dedupKeys keys).length).length := by
         rw [freshIds_length]
-      refine .change .byname (Or.inl rfl) ?_ ?_
+      refine MutKind.mk_change ht .byname (Or.inl rfl) ?_ ?_ (Or.inr (by simp))
       · simp only [scUnregs_append, scUnregs_unregAll, scUnregs_regAll, append_nil, scRegs_append,
           scRegs_unregAll, scRegs_regAll, nil_append]
         rw [targets_eq]
@@ -586,7 +631,8 @@ theorem mutate_spec {h : Heap} (ht : TreeShaped h) {op : Op} {m : Mut}
         have hkey : k' = key := by simpa using find?_some hf
         subst hkey
         obtain ⟨r1, r2, r3⟩ := assoc_replace (ht.keys o) (ht.nodup o .byname) hmem hfresh
-        refine .change .byname (Or.inr ⟨rfl, rfl⟩) ?_ (by simp)
+        refine MutKind.mk_change ht .byname (Or.inr ⟨rfl, rfl⟩) ?_ (by simp)
+          (Or.inr (by simp [scUnregs, scRegs, unregAll, regAll]))
         simp only [scUnregs, scRegs]
         have hk' : (map (·.1) (map (fun e : Nat × Nat => if e.1 = k' then (k', h.next) else e)
             (h.obj o).byname)).Nodup := by rw [r1]; exact ht.keys o
@@ -603,7 +649,8 @@ theorem mutate_spec {h : Heap} (ht : TreeShaped h) {op : Op} {m : Mut}
       · rename_i hf
         cases hm
         have hnone := find?_eq_none.mp hf
-        refine .change .byname (Or.inr ⟨rfl, rfl⟩) ?_ (by simp)
+        refine MutKind.mk_change ht .byname (Or.inr ⟨rfl, rfl⟩) ?_ (by simp)
+          (Or.inr (by simp [scUnregs, scRegs, unregAll, regAll]))
         simp only [scUnregs, scRegs]
         refine Change.ofSet ht ho _ 1 .byname _ _ ?_ ?_ (by simp) ?_ ?_ (by simp) (by simp) ?_
         · intro a' ha'; cases a' <;> first | exact absurd rfl ha' | rfl
@@ -646,7 +693,13 @@ theorem mutate_spec {h : Heap} (ht : TreeShaped h) {op : Op} {m : Mut}
           have := ht.bound o .byname v hin
           have := (mem_freshIds.mp hv).1
           omega)
-      refine .change .byname (Or.inr ⟨rfl, rfl⟩) ?_ ?_
+      refine MutKind.mk_change ht .byname (Or.inr ⟨rfl, rfl⟩) ?_ ?_ (Or.inl ?_)
+      rotate_left 2
+      · intro c hc
+        simp only [scRegs_append, scRegs_regAll, scRegs_changed] at hc
+        have := (u6 c).mp (mem_append.mp hc)
+        rw [hvals] at this
+        exact (mem_freshIds.mp this).1
       · simp only [scUnregs_append, scUnregs_regAll, scUnregs_changed, nil_append, scRegs_append,
           scRegs_regAll, scRegs_changed]
         refine Change.ofSet ht ho _ _ .byname _ _ ?_ ?_ ?_ ?_ u2 u5 u7 u1
@@ -676,7 +729,8 @@ theorem mutate_spec {h : Heap} (ht : TreeShaped h) {op : Op} {m : Mut}
       · rename_i k' old hf
         cases hm
         obtain ⟨d1, d2, d3, d4⟩ := assoc_del (ht.keys o) (ht.nodup o .byname) hf
-        refine .change .byname (Or.inr ⟨rfl, rfl⟩) ?_ (by simp)
+        refine MutKind.mk_change ht .byname (Or.inr ⟨rfl, rfl⟩) ?_ (by simp)
+          (Or.inr (by simp [scUnregs, scRegs, unregAll, regAll]))
         simp only [scUnregs, scRegs]
         rw [← bump_zero (h.setObj o _)]
         refine Change.ofSet ht ho _ 0 .byname _ _ ?_ ?_ ?_ (by simp) d3 (by simp) (by simp) d4
@@ -693,7 +747,8 @@ theorem mutate_spec {h : Heap} (ht : TreeShaped h) {op : Op} {m : Mut}
     split at hm
     · rename_i ho
       cases hm
-      refine .change .byname (Or.inr ⟨rfl, rfl⟩) ?_ ?_
+      refine MutKind.mk_change ht .byname (Or.inr ⟨rfl, rfl⟩) ?_ ?_
+        (Or.inr (by simp [regAll]))
       · simp only [scUnregs_unregAll, scRegs_unregAll]
         rw [targets_eq, ← bump_zero (h.setObj o _)]
         refine Change.replaceAll ht ho _ 0 .byname [] ?_ rfl (by simp) (by simp) (by simp)
@@ -704,6 +759,94 @@ theorem mutate_spec {h : Heap} (ht : TreeShaped h) {op : Op} {m : Mut}
           | nil => rfl
           | cons a l => simp [hT] at hf
         simp [this]
+    · cases hm
+  | rearrange o d p n inplace =>
+    simp only [mutate] at hm
+    split at hm
+    · rename_i ho
+      cases hm
+      have hkn : (h.obj o).kids.Nodup := ht.nodup o .kids
+      have hsub : ∀ c, c ∈ permute p ((h.obj o).kids.drop d) → c ∈ (h.obj o).kids :=
+        fun c hc => mem_of_mem_drop (mem_permute.mp hc)
+      have hpn : (permute p ((h.obj o).kids.drop d)).Nodup :=
+        nodup_permute ((drop_sublist d _).nodup hkn)
+      have hnd : (permute p ((h.obj o).kids.drop d) ++ freshIds h n).Nodup := by
+        rw [nodup_append]
+        refine ⟨hpn, freshIds_nodup _ _, ?_⟩
+        intro x hx y hy hxy
+        subst hxy
+        have := ht.bound o .kids x (hsub x hx)
+        have := (mem_freshIds.mp hy).1
+        omega
+      refine .change .kids (by cases inplace <;> simp [isContainer]) ?_ ?_ (Or.inr (by simp))
+      · simp only [scUnregs_append, scUnregs_unregAll, scUnregs_regAll, append_nil, scRegs_append,
+          scRegs_unregAll, scRegs_regAll, nil_append]
+        refine Change.ofSet' ht ho _ n .kids _ _ ?_ ?_ (fun _ hc => hc) ?_ hnd hkn hnd (ht.keys o)
+        · intro a' ha'; cases a' <;> first | exact absurd rfl ha' | rfl
+        · intro c
+          simp only [Obj.targets]
+          constructor
+          · exact Or.inr
+          · rintro (⟨h1, h2⟩ | h1); exact (h2 h1).elim; exact h1
+        · intro c hc
+          rcases mem_append.mp hc with h1 | h1
+          · exact Or.inr (hsub c h1)
+          · exact Or.inl (mem_freshIds.mp h1)
+      · intro hf p' a' c
+        have hsame : permute p ((h.obj o).kids.drop d) ++ freshIds h n = (h.obj o).kids := by
+          cases inplace
+          · have : (h.obj o).kids = permute p ((h.obj o).kids.drop d) ++ freshIds h n := by simpa using hf
+            exact this.symm
+          · have : (h.obj o).kids = [] ∧ permute p ((h.obj o).kids.drop d) = [] ∧ freshIds h n = [] := by
+              simpa using hf
+            rw [this.2.1, this.2.2, this.1]; rfl
+        by_cases hp : p' = o
+        · subst hp
+          rw [targets_set_self, targets_eq]
+          cases a' <;> simp [Obj.targets, hsame]
+        · rw [targets_set_ne _ _ _ _ _ hp]
+    · cases hm
+  | dictCarry o d =>
+    simp only [mutate] at hm
+    split at hm
+    · rename_i ho
+      cases hm
+      have hsubl : ((h.obj o).byname.drop d).Sublist (h.obj o).byname := drop_sublist d _
+      refine .change .byname (Or.inl rfl) ?_ ?_ (Or.inr (by simp))
+      · simp only [scUnregs_append, scUnregs_unregAll, scUnregs_regAll, append_nil, scRegs_append,
+          scRegs_unregAll, scRegs_regAll, nil_append]
+        rw [← bump_zero (h.setObj o _)]
+        refine Change.ofSet' ht ho _ 0 .byname _ _ ?_ ?_ (fun _ hc => hc) ?_ ?_ (ht.nodup o .byname) ?_ ?_
+        · intro a' ha'; cases a' <;> first | exact absurd rfl ha' | rfl
+        · intro c
+          simp only [Obj.targets]
+          constructor
+          · exact Or.inr
+          · rintro (⟨h1, h2⟩ | h1); exact (h2 h1).elim; exact h1
+        · intro c hc
+          refine Or.inr ?_
+          obtain ⟨e, he, rfl⟩ := mem_map.mp hc
+          exact mem_map.mpr ⟨e, mem_of_mem_drop (mem_reverse.mp he), rfl⟩
+        · show (map (·.2) ((h.obj o).byname.drop d).reverse).Nodup
+          rw [map_reverse, (reverse_perm _).nodup_iff]
+          exact (hsubl.map _).nodup (ht.nodup o .byname)
+        · rw [map_reverse, (reverse_perm _).nodup_iff]
+          exact (hsubl.map _).nodup (ht.nodup o .byname)
+        · show (map (·.1) ((h.obj o).byname.drop d).reverse).Nodup
+          rw [map_reverse, (reverse_perm _).nodup_iff]
+          exact (hsubl.map _).nodup (ht.keys o)
+      · intro hf p' a' c
+        have hd : (h.obj o).byname.drop d = (h.obj o).byname := by
+          have h0 : ¬ (0 < min d (h.obj o).byname.length) := by simpa using hf
+          rcases Nat.eq_zero_or_pos d with rfl | hdpos
+          · rfl
+          · have : (h.obj o).byname.length = 0 := by omega
+            rw [length_eq_zero_iff.mp this]; simp
+        by_cases hp : p' = o
+        · subst hp
+          rw [← bump_zero (h.setObj p' _), targets_set_self, targets_eq]
+          cases a' <;> simp [Obj.targets, hd]
+        · rw [← bump_zero (h.setObj o _), targets_set_ne _ _ _ _ _ hp]
     · cases hm
   | probe o f =>
     simp only [mutate] at hm
